@@ -1722,51 +1722,86 @@ def last_element_reads(fn):
     except Exception:
         return 0
 
+    def closure(pairs, v):
+        out = {v}
+        changed = True
+        while changed:
+            changed = False
+            for a, b in pairs:
+                if a in out and b not in out:
+                    out.add(b)
+                    changed = True
+                elif b in out and a not in out:
+                    out.add(a)
+                    changed = True
+        return out
+
+    def kill(st, name):
+        last, pairs = st
+        last = {x: frozenset(n for n in vs if n != name) for x, vs in last.items()}
+        last = {x: vs for x, vs in last.items() if vs}
+        pairs = frozenset(p for p in pairs if name not in p)
+        return last, pairs
+
     def transfer(node, st):
-        st = dict(st)
+        last, pairs = dict(st[0]), st[1]
         a = node.ast
         if a is None:
-            return st
+            return last, pairs
         if node.kind == "stmt":
             if isinstance(a, ast.Assign) and len(a.targets) == 1 and isinstance(a.targets[0], ast.Name) and a.targets[0].id in lists:
                 x = a.targets[0].id
                 if a.value.elts and isinstance(a.value.elts[-1], ast.Name):
-                    st[x] = a.value.elts[-1].id
+                    last[x] = frozenset(closure(pairs, a.value.elts[-1].id))
                 else:
-                    st.pop(x, None)
-                return st
+                    last.pop(x, None)
+                return last, pairs
             if isinstance(a, ast.Expr) and isinstance(a.value, ast.Call) and isinstance(a.value.func, ast.Attribute) and a.value.func.attr == "append" and \
                     isinstance(a.value.func.value, ast.Name) and a.value.func.value.id in lists:
                 x = a.value.func.value.id
                 if len(a.value.args) == 1 and isinstance(a.value.args[0], ast.Name):
-                    st[x] = a.value.args[0].id
+                    last[x] = frozenset(closure(pairs, a.value.args[0].id))
                 else:
-                    st.pop(x, None)
-                return st
+                    last.pop(x, None)
+                return last, pairs
+            if isinstance(a, ast.Assign) and len(a.targets) == 1 and isinstance(a.targets[0], ast.Name) and isinstance(a.value, ast.Name) and \
+                    a.targets[0].id != a.value.id:
+                # a plain copy: the target now equals the source
+                t, v = a.targets[0].id, a.value.id
+                last, pairs = kill((last, pairs), t)
+                pairs = pairs | {(t, v)}
+                last = {x: (vs | {t} if v in vs else vs) for x, vs in last.items()}
+                return last, pairs
+        st2 = (last, pairs)
         for r in E.node_exprs(node):
             for n in ast.walk(r):
                 if isinstance(n, ast.Name) and isinstance(n.ctx, (ast.Store, ast.Del)):
-                    for x in [x for x, v in st.items() if v == n.id]:
-                        del st[x]
+                    st2 = kill(st2, n.id)
                 if isinstance(n, ast.Call) and isinstance(n.func, ast.Attribute) and n.func.attr == "append" and isinstance(n.func.value, ast.Name) and \
                         n.func.value.id in lists:
-                    st.pop(n.func.value.id, None)      # an append nested in a larger statement
-        return st
-    IN = {g.entry: {}}
+                    l2 = dict(st2[0])
+                    l2.pop(n.func.value.id, None)      # an append nested in a larger statement
+                    st2 = (l2, st2[1])
+        return st2
+
+    def meet(s1, s2):
+        last = {x: s1[0][x] & s2[0][x] for x in s1[0] if x in s2[0] and (s1[0][x] & s2[0][x])}
+        return last, s1[1] & s2[1]
+    IN = {g.entry: ({}, frozenset())}
     work = [g.entry]
     OUT = {}
     while work:
         n = work.pop()
         o = transfer(n, IN[n])
-        if OUT.get(n) == o and n in OUT:
+        if n in OUT and OUT[n] == o:
             continue
         OUT[n] = o
         for s2 in g.G.successors(n):
             if s2 not in IN:
-                IN[s2] = dict(o)
+                IN[s2] = o
                 work.append(s2)
             else:
-                m = {x: v for x, v in IN[s2].items() if o.get(x) == v}
+                m = meet(IN[s2], o)
                 if m != IN[s2] or s2 not in OUT:
                     IN[s2] = m
                     work.append(s2)
@@ -1779,10 +1814,10 @@ def last_element_reads(fn):
             node = g.node_of(r)
         except Exception:
             continue
-        v = IN.get(node, {}).get(x)
-        if v is None:
+        vs = IN.get(node, ({}, None))[0].get(x)
+        if not vs:
             continue
-        # inside an append statement of x itself the read still sees the previous last element: fine, IN is the state before
+        v = sorted(vs, key=lambda nm: (nm.startswith("__"), nm))[0]
         p = par.get(id(r))
         new = ast.copy_location(ast.Name(id=v, ctx=ast.Load()), r)
         for field, val in ast.iter_fields(p):
@@ -1790,9 +1825,9 @@ def last_element_reads(fn):
                 setattr(p, field, new)
                 k += 1
             elif isinstance(val, list):
-                for i, e in enumerate(val):
+                for i2, e in enumerate(val):
                     if e is r:
-                        val[i] = new
+                        val[i2] = new
                         k += 1
     return k
 
@@ -2187,6 +2222,91 @@ def split_webs(fn, known):
             for m in lds:
                 m.id = names[find(d0)]
         k += 1
+    return k
+
+
+def inline_filtered_lists(fn):
+    """L = [v for v in R if P(v)]  ...  for x in L: BODY      ->      for x in R: if P(x): BODY
+    for a local L that is used only as the iterable of for loops, when P consists of leaf tests (`.get_children()` / `.children`
+    compared with None) and plain locals, and nothing between the definition and the end of the last such loop can grow the
+    tree, rebind a name that R or P read, or call unknown code: the same elements are visited in the same order and P has the
+    same value when the loop reaches an element as it had when the list was built."""
+    par = {}
+    for n in ast.walk(fn):
+        for c in ast.iter_child_nodes(n):
+            par[id(c)] = n
+    k = 0
+    for blk in _blocks(fn):
+        for i, st in enumerate(list(blk)):
+            if st not in blk:
+                continue
+            i = blk.index(st)
+            if not (isinstance(st, ast.Assign) and len(st.targets) == 1 and isinstance(st.targets[0], ast.Name) and isinstance(st.value, ast.ListComp)):
+                continue
+            lc = st.value
+            if len(lc.generators) != 1:
+                continue
+            g = lc.generators[0]
+            if g.is_async or len(g.ifs) != 1 or not isinstance(g.target, ast.Name) or not (isinstance(lc.elt, ast.Name) and lc.elt.id == g.target.id):
+                continue
+            L, v, P, R = st.targets[0].id, g.target.id, g.ifs[0], g.iter
+            # P: leaf tests and plain names only
+            okp = True
+            for n in ast.walk(P):
+                if isinstance(n, ast.Call):
+                    if not (isinstance(n.func, ast.Attribute) and n.func.attr == "get_children" and not n.args and not n.keywords):
+                        okp = False
+                elif isinstance(n, ast.Attribute):
+                    if n.attr not in ("get_children", "children"):
+                        okp = False
+                elif not isinstance(n, (ast.Name, ast.Compare, ast.BoolOp, ast.UnaryOp, ast.Constant, ast.Is, ast.IsNot, ast.And, ast.Or, ast.Not,
+                                        ast.Load, ast.Subscript, ast.Eq, ast.NotEq)):
+                    okp = False
+            if not okp or not simple_arg(R) or isinstance(R, ast.Constant):
+                continue
+            occ = [n for n in ast.walk(fn) if isinstance(n, ast.Name) and n.id == L]
+            uses = [n for n in occ if n is not st.targets[0]]
+            loops = []
+            ok = bool(uses)
+            for n in uses:
+                p1 = par.get(id(n))
+                if isinstance(p1, ast.For) and p1.iter is n and isinstance(p1.target, ast.Name):
+                    loops.append(p1)
+                else:
+                    ok = False
+            if not ok:
+                continue
+            # the statements of this block from the definition to the last one that contains a use
+            last = i
+            for lp in loops:
+                cur = lp
+                while cur is not None and cur not in blk:
+                    cur = par.get(id(cur))
+                if cur is None or blk.index(cur) <= i:
+                    ok = False
+                    break
+                last = max(last, blk.index(cur))
+            if not ok:
+                continue
+            region = blk[i + 1:last + 1]
+            rd = {n.id for e in (R, P) for n in ast.walk(e) if isinstance(n, ast.Name)} - {v}
+            for t in region:
+                w = writes_of(t)
+                if "<heap:TREE>" in w or "<heap>" in w or (w & rd) or any(x.startswith("<heap:") and x[6:-1] in {src(R)} for x in w):
+                    ok = False
+                    break
+                # a loop variable of one of the rewritten loops must not collide with what R / P read
+            if not ok or any(lp.target.id in rd for lp in loops):
+                continue
+            for lp in loops:
+                test = _Rename({}, {v: ast.Name(id=lp.target.id, ctx=ast.Load())}).visit(copy.deepcopy(P))
+                lp.iter = copy.deepcopy(R)
+                guard = ast.If(test=test, body=lp.body, orelse=[])
+                ast.copy_location(guard, lp)
+                lp.body = [guard]
+                ast.fix_missing_locations(lp)
+            blk.remove(st)
+            k += 1
     return k
 
 
@@ -2932,6 +3052,7 @@ def normalize_tree(file, tree, vocab):
             t0 += fold_none_tests(f, cname)
             t0 += seed_list_literals(f)
             t0 += argsort_to_sorted(f)
+            t0 += inline_filtered_lists(f)
             t0 += last_element_reads(f)
             t0 += scalarise_tuple_temps(f)
             t0 += coalesce_copies(f)
